@@ -39,7 +39,10 @@ CUR = {'ctx': None, 'case': None}
 def shards(tier, seed):
     per = 500 if tier == 'quick' else 30000
     budget = 45 if tier == 'quick' else 540
-    return [{'kind': 'random', 'count': per, 'budget_s': budget, 'max_g': 12 if tier == 'quick' else 40} for _ in range(16)]
+    _out = [{'kind': 'random', 'count': per, 'budget_s': budget, 'max_g': 12 if tier == 'quick' else 40} for _ in range(16)]
+    if tier == 'thorough':
+        _out.append({'kind': 'suite', 'select': ['tests/cirbo/circuits_db', 'tests/cirbo/synthesis'], 'budget_s': 900})
+    return _out
 
 
 def in_domain(net):
@@ -436,6 +439,11 @@ def check_case(case, ctx):
 
 def run_shard(spec, ctx):
     install(ctx)
+    if spec.get('kind') == 'suite':
+        from vt import suite
+        import sys
+        suite.run(sys.modules[__name__], ctx, select=spec.get('select'))
+        return
     for i in range(spec['count']):
         if ctx.out_of_time():
             ctx.count('stopped_on_budget')
